@@ -25,6 +25,9 @@ import (
 // predicate parameters to the byte sets of the arguments.
 var scanParamSets map[ssa.Value]*relang.Set
 
+// scanParamBools binds, likewise, boolean parameters to the constants passed at the call site.
+var scanParamBools map[ssa.Value]bool
+
 // paramSetOf: v is (a copy of) a table parameter bound in scanParamSets.
 func paramSetOf(v ssa.Value) (*relang.Set, bool) {
 	if scanParamSets == nil {
@@ -48,6 +51,13 @@ func paramSetOf(v ssa.Value) (*relang.Set, bool) {
 // predicate func(byte) bool of the repository.
 func byteSetOfArg(p *Program, fn *ssa.Function, v ssa.Value) (*relang.Set, bool) {
 	switch x := v.(type) {
+	case *ssa.Global:
+		// the address of a table handed to a helper that only reads through it (checked by the caller)
+		if x.Pkg != nil {
+			if s, ok := constBoolTables(p, relOf(x.Pkg.Pkg.Path()))(x); ok {
+				return s, true
+			}
+		}
 	case *ssa.UnOp:
 		if g, ok := x.X.(*ssa.Global); ok && x.Op == token.MUL && g.Pkg != nil {
 			if s, ok := constBoolTables(p, relOf(g.Pkg.Pkg.Path()))(g); ok {
@@ -87,6 +97,30 @@ func byteSetOfArg(p *Program, fn *ssa.Function, v ssa.Value) (*relang.Set, bool)
 	return nil, false
 }
 
+// readOnlyPointerParam: the pointer parameter is only indexed and loaded from (never stored through, never handed on).
+func readOnlyPointerParam(prm *ssa.Parameter) bool {
+	for _, ref := range *prm.Referrers() {
+		switch x := ref.(type) {
+		case *ssa.IndexAddr:
+			for _, r2 := range *x.Referrers() {
+				if u, ok := r2.(*ssa.UnOp); !ok || u.Op != token.MUL {
+					if _, dbg := r2.(*ssa.DebugRef); !dbg {
+						return false
+					}
+				}
+			}
+		case *ssa.UnOp:
+			if x.Op != token.MUL {
+				return false
+			}
+		case *ssa.DebugRef:
+		default:
+			return false
+		}
+	}
+	return true
+}
+
 type splitSummary struct {
 	Cont     *relang.Set // bytes of the returned token
 	Consumed int         // result index of the token
@@ -98,11 +132,19 @@ func splitterSummary(p *Program, f *ssa.Function, args []ssa.Value, caller *ssa.
 	if f == nil || f.Blocks == nil || f.Pkg == nil || !strings.HasPrefix(f.Pkg.Pkg.Path(), modulePath) {
 		return nil, false
 	}
-	saved := scanParamSets
+	saved, savedB := scanParamSets, scanParamBools
 	scanParamSets = map[ssa.Value]*relang.Set{}
-	defer func() { scanParamSets = saved }()
+	scanParamBools = map[ssa.Value]bool{}
+	defer func() { scanParamSets, scanParamBools = saved, savedB }()
 	for i, prm := range f.Params {
 		if i >= len(args) || isStringish(prm.Type()) {
+			continue
+		}
+		if bv, ok := constBool(args[i]); ok {
+			scanParamBools[prm] = bv
+			continue
+		}
+		if _, isAddr := args[i].(*ssa.Global); isAddr && !readOnlyPointerParam(prm) {
 			continue
 		}
 		if s, ok := byteSetOfArg(p, caller, args[i]); ok {
@@ -248,11 +290,26 @@ func (oe *outEval) seedTokens(fr *oframe) {
 			if _, bound := fr.env[v]; bound {
 				continue
 			}
+			if t, ok := oe.tokenTerm(v); ok {
+				fr.env[v] = t
+			}
+		}
+	}
+}
+
+// tokenTerm: the term of a token-valued value (the same wherever the value is met: in the frame of its function, or
+// through a struct field by which it is handed to another function).
+func (oe *outEval) tokenTerm(v *ssa.Extract) (Term, bool) {
+	{
+		{
+			if !isStringish(v.Type()) || v.Parent() == nil {
+				return Term{}, false
+			}
 			set, ok := tokenSetOf(oe.p, v, 0)
 			if !ok {
-				continue
+				return Term{}, false
 			}
-			key := "token:" + oe.p.Pos(v.Pos()) + ":" + v.Name() + "@" + fnName(fr.fn)
+			key := "token:" + oe.p.Pos(v.Pos()) + ":" + v.Name() + "@" + fnName(v.Parent())
 			id, have := oe.pseudo[key]
 			if !have {
 				id = 100 + len(oe.pseudo)
@@ -260,7 +317,6 @@ func (oe *outEval) seedTokens(fr *oframe) {
 				oe.PseudoKey[id] = key
 			}
 			t := Term{Param: id}
-			fr.env[v] = t
 			stop := byteDomain().Minus(set)
 			l := &scanLoop{}
 			rs := l.toRuneSet(stop)
@@ -272,6 +328,7 @@ func (oe *outEval) seedTokens(fr *oframe) {
 				oe.TokenSets = map[int]*relang.Set{}
 			}
 			oe.TokenSets[id] = set
+			return t, true
 		}
 	}
 }
